@@ -389,7 +389,7 @@ func cmdCheck(args []string) int {
 	assumptions = append(assumptions, dedup(unsup)...)
 	assumptions = append(assumptions,
 		"go/packages + go/ssa (x/tools v0.29.0, naive form) build SSA faithful to the Go specification",
-		"the VC generator's encoding of SSA instructions (ints are mathematical with explicit overflow obligations; slices are values without aliasing; maps/structs in a Burstall-Bornat heap)",
+		"the VC generator's encoding of SSA instructions (int arithmetic has exact two-complement wrap-around semantics over mathematical integers; slices are values without aliasing; maps/structs in a Burstall-Bornat heap)",
 		"SMT solver answers (z3 4.8.12, z3 5.1.0, cvc5 1.0.x): unsat from one solver with no sat from another",
 	)
 	sort.Strings(assumptions)
